@@ -139,6 +139,10 @@ def run(ctx):
                 cases.append((ft, secs * 512 + rng.choice([0, 0, 1, 511]), 512, rng.choice([1, 2, 3])))
         # FAT32 with sectors larger than 512 bytes (D34); the row boundaries above are beyond the quick tier's size limit for these
         cases.append((32, (66601 + rng.randrange(0, 40)) * 1024, 1024, rng.choice([1, 2])))
+        # ... every sector size: the reserved area must hold the backup boot sector and FSInfo whatever the sector size (C14-m7: a reserved
+        # area "kept at 16 KiB" has 4 sectors of 4096 bytes, the backup boot sector at sector 6 lands in the first FAT)
+        big32 = [(32, (66601 + rng.randrange(0, 40)) * 2048, 2048, 2), (32, (66601 + rng.randrange(0, 40)) * 4096, 4096, rng.choice([1, 2]))]
+        cases += big32
         for secs in (3, 10, 17, 18, 20, 24, 29, 33, 64, 128):
             cases.append((12, secs * 512, 512, 2))
         # power-of-two sizes (where a "rounded" size table would put the cluster count over the type's limit)
@@ -173,7 +177,7 @@ def run(ctx):
         labels = ["", "A", "NO NAME", "ELEVENCHARS", "my disk"]
         n = 0
         for ft, size, ss, nf in cases:
-            if ctx.time_left() < 10 or size > (140 << 20 if ctx.tier == "quick" else 300 << 20):
+            if ctx.time_left() < 10 or (size > (140 << 20 if ctx.tier == "quick" else 300 << 20) and (ft, size, ss, nf) not in big32):
                 continue
             n += 1
             check_one(ctx, m, ft, size, ss, nf, medias[n % len(medias)], labels[n % len(labels)], 1536 if n % 5 == 0 else 0, fill=(n % 3 == 0))
